@@ -43,6 +43,14 @@ LIBNAMES = ['alpha', 'beta', 'gamma', 'delta', 'zeta', 'kappa', 'mu', 'omega',
 DIRNAMES = ['core', 'util', 'net', 'io', 'gfx', 'db', 'x1', 'x2', 'aa', 'zz']
 
 
+# (specifiers of one name always merge into a single one: Requires takes one)
+REQ_POOL = [('dep', '>=1.0'), ('dep', '>1.0'), ('dep', '>=0.5'),
+            ('other', ''), ('zed', '<=2.1'), ('zed', '<2.1'), ('zed', '<3'),
+            ('kap', '!=1.1'), ('mu', '==2.5'), ('mu', '>=2.5')]
+CONFLICT_POOL = [('foo', '>=1.0,<2.0'), ('bar', '<3,>1'), ('baz', '>1,!=1.5'),
+                 ('qux', '<2'), ('foo', '!=1.1,!=1.2,<5'), ('bar', '>=2,<=9')]
+
+
 @st.composite
 def cases(draw):
     nlib = draw(st.integers(2, 4))
@@ -64,6 +72,15 @@ def cases(draw):
             'mode': draw(st.sampled_from([['--enable-shared',
                                            '--enable-static'], []])),
             'seeds': seeds,
+            # requirement lists of the generated .pc file: one name may be
+            # constrained from two places, conflicts may keep two bounds
+            'requires': draw(st.lists(st.sampled_from(REQ_POOL), max_size=3,
+                                      unique_by=lambda r: r[0])),
+            'requires_private': draw(st.lists(st.sampled_from(REQ_POOL),
+                                              max_size=3,
+                                              unique_by=lambda r: r[0])),
+            'conflicts': draw(st.lists(st.sampled_from(CONFLICT_POOL),
+                                       max_size=3, unique_by=lambda r: r[0])),
             'junk': draw(st.dictionaries(
                 st.sampled_from(['ZZ_UNRELATED', 'A_VAR', 'COLUMNS',
                                  'TERM', 'XDG_FOO']),
@@ -98,8 +115,13 @@ def render(case, src):
     L.append('install(prog)')
     L.append("inc = header_directory('tree', include='**/*.h')")
     L.append('install(inc)')
+    def reqs(key):
+        return [n if not sp else (n, sp) for n, sp in case.get(key, [])]
     L.append("pkg_config('c13pkg', version='1.2', includes=[inc], "
-             "libs=[l_{}])".format(case['libs'][0]))
+             "libs=[l_{}], requires={!r}, requires_private={!r}, "
+             "conflicts={!r})".format(case['libs'][0], reqs('requires'),
+                                      reqs('requires_private'),
+                                      reqs('conflicts')))
     L.append("t = executable('t1', ['t1.c'], libs=[l_{}])".format(
         case['libs'][-1]))
     sandbox.write_file(os.path.join(src, 't1.c'),
@@ -181,6 +203,13 @@ def prop_determinism(rec):
             os.makedirs(src)
             os.symlink(os.path.join(tmp, 'real'), os.path.join(tmp, 'link'))
             render(case, src)
+            depdir = os.path.join(tmp, 'deps')
+            for n, v in (('dep', '2.0'), ('other', '1.0'), ('zed', '1.0'),
+                         ('kap', '2.0'), ('mu', '2.5')):
+                sandbox.write_file(
+                    os.path.join(depdir, n + '.pc'),
+                    'Name: {0}\nDescription: d\nVersion: {1}\nCflags: '
+                    '-DHAVE_{0}\nLibs:\n'.format(n, v))
             lsrc = os.path.join(tmp, 'link', 'top', 'src')
             lbld = os.path.join(tmp, 'link', 'top', 'bld')
             opts = ['--backend=' + backend, '--no-resolve-packages',
@@ -206,7 +235,8 @@ def prop_determinism(rec):
                     os.rename(bld, bld + '.run{}'.format(i - 1))
                 os.makedirs(bld)
                 env = sandbox.base_env(os.path.join(tmp, 'home'),
-                                       extra=dict(extra_env))
+                                       extra=dict(extra_env,
+                                                  PKG_CONFIG_PATH=depdir))
                 env['PYTHONHASHSEED'] = str(case['seeds'][i])
                 if i % 2:
                     env.update(case['junk'])
